@@ -247,6 +247,7 @@ func (g *G) stmt(c *gctx) []*N {
 		add(4, func() []*N { return g.raiseInsideExpr(c) })
 		add(2, func() []*N { return g.deferAfterReturnedTypedSlot(c) })
 		add(2, func() []*N { return []*N{g.guarded(c, g.rterrStmt())} })
+		add(2, func() []*N { return g.deferAddrWrite(c) })
 		add(4, func() []*N { return g.deferArgsHeld(c) })
 	}
 	if P.CtlVals && !deep {
